@@ -822,6 +822,71 @@ async fn server_devices_case(case: &Value) -> Value {
            "agree": listed == replay})
 }
 
+
+/// C14 wire part: protobuf bytes -> T (decode) -> bytes (encode) -> T -> bytes through the public
+/// `WireEncodeDecode`; stable iff the second decode succeeds and both encodings and Debug forms agree.
+async fn wire_rt<T>(bytes: Vec<u8>) -> Value
+where
+    T: sos_protocol::WireEncodeDecode + std::fmt::Debug,
+{
+    let input = bytes.clone();
+    let v1 = match T::decode(bytes::Bytes::from(bytes)).await {
+        Ok(v) => v,
+        Err(e) => return json!({"outcome": "err", "stage": "decode1", "detail": e.to_string()}),
+    };
+    let d1 = format!("{:?}", v1);
+    let e1 = match v1.encode().await {
+        Ok(b) => b,
+        Err(e) => return json!({"outcome": "err", "stage": "encode", "detail": e.to_string()}),
+    };
+    let v2 = match T::decode(bytes::Bytes::from(e1.clone())).await {
+        Ok(v) => v,
+        Err(e) => return json!({"outcome": "err", "stage": "decode2", "detail": e.to_string(), "e1": hex::encode(&e1)}),
+    };
+    let d2 = format!("{:?}", v2);
+    let e2 = v2.encode().await.unwrap_or_default();
+    json!({"outcome": "ok", "stable": d1 == d2 && e1 == e2, "debug_equal": d1 == d2, "bytes_equal": e1 == e2,
+           "reencode_equals_input": e1 == input,
+           "v1": d1.chars().take(300).collect::<String>(), "v2": d2.chars().take(300).collect::<String>()})
+}
+
+async fn wire_roundtrip_case(case: &Value) -> Value {
+    let bytes = hex::decode(case["bytes"].as_str().unwrap_or("")).unwrap();
+    match case["ty"].as_str().unwrap() {
+        "UtcDateTime" => wire_rt::<sos_core::UtcDateTime>(bytes).await,
+        "CommitHash" => wire_rt::<sos_core::commit::CommitHash>(bytes).await,
+        "CommitProof" => wire_rt::<sos_core::commit::CommitProof>(bytes).await,
+        "CommitState" => wire_rt::<sos_core::commit::CommitState>(bytes).await,
+        "Comparison" => wire_rt::<sos_core::commit::Comparison>(bytes).await,
+        "EventRecord" => wire_rt::<sos_core::events::EventRecord>(bytes).await,
+        "CheckedPatch" => wire_rt::<sos_core::events::patch::CheckedPatch>(bytes).await,
+        "EventLogType" => wire_rt::<sos_core::events::EventLogType>(bytes).await,
+        "DiffRequest" => wire_rt::<sos_protocol::DiffRequest>(bytes).await,
+        "DiffResponse" => wire_rt::<sos_protocol::DiffResponse>(bytes).await,
+        "PatchRequest" => wire_rt::<sos_protocol::PatchRequest>(bytes).await,
+        "PatchResponse" => wire_rt::<sos_protocol::PatchResponse>(bytes).await,
+        "ScanRequest" => wire_rt::<sos_protocol::ScanRequest>(bytes).await,
+        "ScanResponse" => wire_rt::<sos_protocol::ScanResponse>(bytes).await,
+        "ExternalFile" => wire_rt::<sos_core::ExternalFile>(bytes).await,
+        "FileSet" => wire_rt::<sos_protocol::transfer::FileSet>(bytes).await,
+        "FileTransfersSet" => wire_rt::<sos_protocol::transfer::FileTransfersSet>(bytes).await,
+        "Origin" => wire_rt::<sos_core::Origin>(bytes).await,
+        "SyncStatus" => wire_rt::<sos_sync::SyncStatus>(bytes).await,
+        "CreateSet" => wire_rt::<sos_sync::CreateSet>(bytes).await,
+        "UpdateSet" => wire_rt::<sos_sync::UpdateSet>(bytes).await,
+        "SyncDiff" => wire_rt::<sos_sync::SyncDiff>(bytes).await,
+        "SyncCompare" => wire_rt::<sos_sync::SyncCompare>(bytes).await,
+        "SyncPacket" => wire_rt::<sos_sync::SyncPacket>(bytes).await,
+        "MergeOutcome" => wire_rt::<sos_sync::MergeOutcome>(bytes).await,
+        "TrackedChanges" => wire_rt::<sos_sync::TrackedChanges>(bytes).await,
+        "TrackedAccountChange" => wire_rt::<sos_sync::TrackedAccountChange>(bytes).await,
+        "TrackedDeviceChange" => wire_rt::<sos_sync::TrackedDeviceChange>(bytes).await,
+        "TrackedFileChange" => wire_rt::<sos_sync::TrackedFileChange>(bytes).await,
+        "TrackedFolderChange" => wire_rt::<sos_sync::TrackedFolderChange>(bytes).await,
+        other => json!({"outcome": "unknown_type", "ty": other}),
+    }
+}
+
 static TMP_COUNTER: std::sync::atomic::AtomicUsize = std::sync::atomic::AtomicUsize::new(0);
 
 fn tmp_path(tag: &str) -> std::path::PathBuf {
@@ -887,6 +952,7 @@ pub async fn run(case: &Value) -> Value {
     match op {
         "compact" => compact_case(case).await,
         "integrity" => integrity_case(case).await,
+        "wire_roundtrip" => wire_roundtrip_case(case).await,
         "server_devices" => server_devices_case(case).await,
         "access_control" => access_control(case),
         "fslog_script" => fslog_script(case).await,
